@@ -26,6 +26,7 @@ def _roots(host):
         roots.append(h.user)
         roots.append(h.instance)
         roots.append(h.peer)
+        roots.append(h.last_error)
     return roots
 
 
